@@ -18,7 +18,7 @@ func runC01(tb ev.TB, p sim.Prog) ev.Result {
 	obs := func(tb ev.TB, w *sim.World, info *sim.OpInfo) {
 		r := w.Reps[info.Dst]
 		switch info.Op.Kind {
-		case "append", "join", "rebuild":
+		case "append", "join", "rebuild", "loadtail":
 			sim.MustOK(tb, info)
 		}
 		// entry set == model set
@@ -79,7 +79,13 @@ func runC01(tb ev.TB, p sim.Prog) ev.Result {
 		info := w.Exec(tb, i, op, sync)
 		if noop {
 			sim.MustOK(tb, info)
-			if d := pre.diff(takeSnap(w.Reps[a].Log)); d != "" {
+			post := takeSnap(w.Reps[a].Log)
+			if w.HadPartial {
+				// a log rebuilt by a loader starts with clock 0 and catches up on its first merge: not part of
+				// what the statement calls "changes nothing" (entries, heads, values)
+				pre.ClockT, post.ClockT = 0, 0
+			}
+			if d := pre.diff(post); d != "" {
 				tb.Fatalf("op #%d %s changed the log: %s", i, info.Op.Kind, d)
 			}
 			if info.Returned != asLog(w.Reps[a].Log) {
@@ -99,7 +105,11 @@ func runC01(tb ev.TB, p sim.Prog) ev.Result {
 			j := (i + 1) % len(w.Reps)
 			info := w.Exec(tb, -1, sim.Op{Kind: "join", A: i, B: j}, true)
 			sim.MustOK(tb, info)
-			if d := before.diff(takeSnap(w.Reps[i].Log)); d != "" {
+			after := takeSnap(w.Reps[i].Log)
+			if w.HadPartial {
+				before.ClockT, after.ClockT = 0, 0 // see above: loader-built logs catch their clock up on the first merge
+			}
+			if d := before.diff(after); d != "" {
 				tb.Fatalf("merging an already merged log changed replica %d: %s", i, d)
 			}
 		}
